@@ -589,6 +589,9 @@ class RefParser:
             o.pristine = False
             self.i += 1
             self.validate(o)
+            if self.comments and comment is not None:          # a list given one bare value is a non-empty list all the same
+                o.comment = comment
+                self.annotations.append((path + d.name, comment))
             return
         if t.k != '{':
             raise _Stop(REJECT, self.i, 'unexpected token')
